@@ -8,6 +8,7 @@ use std::panic::{catch_unwind, AssertUnwindSafe};
 pub mod gen;
 pub mod groups;
 pub mod dsgen;
+pub mod d3gen;
 
 /// SplitMix64 — the only source of randomness; seeded from `--seed`.
 #[derive(Clone)]
